@@ -84,3 +84,73 @@ func VerifC35StartupVote() {
 		vrt.Reach("silent")
 	}
 }
+
+type c35fetch2 struct {
+	list  keys.PublicKeys
+	calls *int
+	fail  func(call int) bool
+}
+
+func (f c35fetch2) get() (keys.PublicKeys, error) {
+	*f.calls++
+	if f.fail(*f.calls) {
+		return nil, errors.New("RPC failure")
+	}
+	return f.list, nil
+}
+func (f c35fetch2) InnerRingKeys() (keys.PublicKeys, error) { return f.get() }
+func (f c35fetch2) Committee() (keys.PublicKeys, error)     { return f.get() }
+
+// VerifC35Indexer: the inner ring indexer over two consecutive lookups (inside
+// the cache timeout) where the inner ring fetch and the committee fetch may
+// each fail at each lookup: whenever AlphabetIndex / InnerRingIndex answer
+// without error, the answer is the node's true position in the list (-1 when
+// absent) - a failed refresh never leaves a stale or zero index to be served
+// as fresh; Server.IsAlphabet follows.
+func VerifC35Indexer() {
+	nAlpha := 1 + vrt.Choice("alphabetSize", 3)
+	pos := vrt.Choice("ownKeyPosition", 5) // >= size: not a member
+	var alpha, ir keys.PublicKeys
+	for i := 0; i < nAlpha; i++ {
+		alpha = append(alpha, c35key(int64(10+i)))
+	}
+	irPos := vrt.Choice("ownInnerRingPosition", 3)
+	for i := 0; i < 2; i++ {
+		ir = append(ir, c35key(int64(30+i)))
+	}
+	own := c35key(int64(10 + pos))
+	if irPos < 2 {
+		ir[irPos] = own
+	}
+	var irCalls, comCalls int
+	irFail1, irFail2 := vrt.Bool("innerRingFetchFailsAtFirstLookup"), vrt.Bool("innerRingFetchFailsAtSecondLookup")
+	comFail1, comFail2 := vrt.Bool("committeeFetchFailsAtFirstLookup"), vrt.Bool("committeeFetchFailsAtSecondLookup")
+	idx := newInnerRingIndexer(
+		c35fetch2{alpha, &comCalls, func(c int) bool { return c == 1 && comFail1 || c == 2 && comFail2 }},
+		c35fetch2{ir, &irCalls, func(c int) bool { return c == 1 && irFail1 || c == 2 && irFail2 }},
+		own, time.Hour)
+	wantAlpha := int32(-1)
+	if pos < nAlpha {
+		wantAlpha = int32(pos)
+	}
+	wantIR := int32(-1)
+	if irPos < 2 {
+		wantIR = int32(irPos)
+	}
+	s := &Server{log: zap.NewNop(), statusIndex: idx}
+	for look := 0; look < 2; look++ {
+		a, err := idx.AlphabetIndex()
+		if err == nil {
+			vrt.Assert(a == wantAlpha, "an alphabet index answered without error is the node's true position in the committee")
+		}
+		r, err := idx.InnerRingIndex()
+		if err == nil {
+			vrt.Assert(r == wantIR, "an inner ring index answered without error is the node's true position in the list")
+		}
+		if s.IsAlphabet() {
+			vrt.Assert(wantAlpha >= 0, "a node outside the committee never considers itself an alphabet member")
+			vrt.Reach("member")
+		}
+	}
+	vrt.Reach("end")
+}
